@@ -16,8 +16,13 @@ from vrf.symx import sym
 PARENTS = [None, 0, 0, 1, 0, 2]  # creation-time hierarchy of nodes 0..5
 
 
-def _op(i, n_in=2, n_out=2):
+ARITY = {1: (2, 2), 2: (0, 2), 3: (2, 0), 4: (1, 1), 5: (2, 2), 9: (1, 2)}  # node index -> (inputs, outputs)
+
+
+def _op(i, n_in=None, n_out=None):
     B = tys.Bool
+    n_in = ARITY.get(i, (2, 2))[0] if n_in is None else n_in
+    n_out = ARITY.get(i, (2, 2))[1] if n_out is None else n_out
     return ops.Custom(f"n{i}", tys.FunctionType([B] * n_in, [B] * n_out), extension="store")
 
 
@@ -49,7 +54,7 @@ def holey_hugr(n, tag="", dels=None):
     with_meta = sym.concretize(sym.bool(f"{tag}meta"))
     for i in range(1, n):
         md = {"k": i} if (i % 2 == 1 and with_meta) else None
-        nodes.append(h.add_node(_op(i), nodes[PARENTS[i]], num_outs=2, metadata=md))
+        nodes.append(h.add_node(_op(i), nodes[PARENTS[i]], num_outs=ARITY[i][1], metadata=md))
     live = list(range(n))
     for i in range(n - 1, 0, -1):  # children before parents
         if not any(PARENTS[j] == i and j in live for j in range(n)):
@@ -58,12 +63,13 @@ def holey_hugr(n, tag="", dels=None):
                 live.remove(i)
     sym.predicate(f"{tag}has_deleted_nodes", len(live) < n)
     if len(live) < n and sym.concretize(sym.bool(f"{tag}readd")):
-        new = h.add_node(_op(9), nodes[0], num_outs=2, metadata={"new": True})
+        new = h.add_node(_op(9), nodes[0], num_outs=ARITY[9][1], metadata={"new": True})
         live = sorted(live + [new.idx])
+        h._arity_of_reused = new.idx
     return h, live
 
 
-def live_links(E, live, tag="l", max_off=None):
+def live_links(E, live, tag="l", max_off=None, arity=None):
     cands = [i for i in live if i != 0]
     out = []
     if not cands:
@@ -77,6 +83,9 @@ def live_links(E, live, tag="l", max_off=None):
         else:
             o = sym.int(f"{tag}{i}.out", 0, max_off)
             q = sym.int(f"{tag}{i}.in", 0, P(0, max_off))
+            if arity is not None:
+                # value links only on ports the operations have (an offset past the signature denotes the order port on the wire)
+                sym.assume(sym.and_(o < arity(a)[1], q < arity(b)[0]))
         out.append(store.Link(p, a, o, b, q))
     return out
 
@@ -157,10 +166,11 @@ def check_image(h, h2, live, links, tag):
 def to_serial_from_serial(dels):
     n = P(4, 6)
     h, live = holey_hugr(n, dels=dels)
-    links = live_links(P(2, 3), live, max_off=P(1, 2))
+    reused = getattr(h, "_arity_of_reused", None)
+    links = live_links(P(2, 3), live, max_off=P(1, 2), arity=lambda i: ARITY[9] if i == reused else ARITY[i])
     sym.predicate("has_order_link", any(isinstance(l.o, int) and l.o == -1 for l in links))
     sym.predicate("has_metadata", any(h[Node(i)].metadata for i in live))
-    store.attach_links(h, links, {i: 2 for i in live if i != 0})
+    store.attach_links(h, links, {i: (ARITY[9] if i == reused else ARITY[i])[1] for i in live if i != 0})
     s = h._to_serial()
     h2 = Hugr._from_serial(s)
     check_image(h, h2, live, links, "rt")
